@@ -734,3 +734,63 @@ def output_contract(ctx: Ctx) -> list[Ob]:
         except (PathLimit, RecursionError):
             obs.append(unres("R4g", f.qualname, f"outputs[{tag}]", "path limit", f.loc))
     return _dedup(obs)
+
+
+def param_gather_contracts(ctx: Ctx) -> list[Ob]:
+    """R4g -- one iteration of ``ParameterAddressBook.lookup`` on an abstract entry: a parameter node
+    with one or two operands, each gathered from one or two source nodes with (F1|F2, *s) outputs by a
+    fold index (F,) -- or taken whole through the index-free form ``()`` -- receives (F, *s) / (F1, *s)."""
+    from ..shapes import new_obj
+
+    repo = ctx.repo
+    f = repo.func(PLOOKUP)
+    loops = [n for n in ast.walk(f.node) if isinstance(n, ast.For) and isinstance(n.iter, ast.Name) and n.iter.id == "self"]
+    if not loops:
+        return [unres("R4g", f.qualname, "loop", "no `for entry in self` loop: another formulation, no verdict", f.loc)]
+    loop = loops[0]
+    tgt = loop.target.id if isinstance(loop.target, ast.Name) else "entry"
+    F1, F2, S0, S1 = (Dim.sym(s) for s in ("F1", "F2", "s0", "s1"))
+    obs: list[Ob] = []
+    node = ObjV(20_000, repo.cls(NODES + ".TorchParameterNode"))
+    cases = [
+        ("gathered, 1 source", [TensorV((F1, S0, S1))], TupleV((TupleV((mkint(0),), "list"),), "list"), TupleV((TensorV((F,), "int"),), "list"), (F, S0, S1)),
+        ("gathered, 2 sources", [TensorV((F1, S0, S1)), TensorV((F2, S0, S1))], TupleV((TupleV((mkint(0), mkint(1)), "list"),), "list"), TupleV((TensorV((F,), "int"),), "list"), (F, S0, S1)),
+        ("index-free", [TensorV((F1, S0, S1))], TupleV((TupleV((mkint(0),), "list"),), "list"), TupleV((TupleV(()),), "list"), (F1, S0, S1)),
+    ]
+    for tag, outs, ids, idxs, want in cases:
+        it = Interp(repo)
+        st = State()
+        ent = new_obj(st, repo.cls(ENTRY))
+        st.heap[ent.oid].update({"module": node, "in_module_ids": ids, "in_fold_idx": idxs})
+        st.env.update({"self": Unknown("address book"), tgt: ent, "module_outputs": TupleV(tuple(outs), "list"), "in_graph": NONE})
+        fr = Frame(f, 0)
+        try:
+            # nested helper definitions of the function body come first
+            pre = [s_ for s_ in f.node.body if isinstance(s_, ast.FunctionDef)]
+            for s_ in pre:
+                for _ in it.stmt(s_, st, fr):
+                    pass
+            for _ in it.block(loop.body, st, fr):
+                pass
+        except ShapeError as e:
+            obs.append(viol("R4g", f.qualname, tag, f"{e.msg} [{e.where}]", f.loc))
+            continue
+        except (PathLimit, RecursionError):
+            obs.append(unres("R4g", f.qualname, tag, "path limit", f.loc))
+            continue
+        got = []
+        for v, s2 in fr.yields:
+            if isinstance(v, TupleV) and len(v.items) == 2 and isinstance(v.items[1], TupleV) and len(v.items[1].items) >= 1:
+                x = v.items[1].items[0]
+                got.append((s2.norm_shape(x.shape) if isinstance(x, TensorV) else None, s2))
+        if not got:
+            obs.append(unres("R4g", f.qualname, tag, "no gathered operand yielded", f.loc))
+        for shp, s2 in got:
+            w = s2.norm_shape(want)
+            if shp is None:
+                obs.append(unres("R4g", f.qualname, tag, "gathered operand not resolved", f.loc))
+            elif shp == w:
+                obs.append(ok("R4g", f.qualname, tag, fmt_shape(w), f.loc))
+            else:
+                obs.append(viol("R4g", f.qualname, tag, f"the node is handed an operand of shape {fmt_shape(shp)}, its forward contract expects {fmt_shape(w)}", f.loc))
+    return _dedup(obs)
